@@ -16,14 +16,58 @@ RULE = ("every registered parser (84 entry points; the six parsers without a typ
         "xmlns declarations ignored, sibling order, names, namespaces, attribute values and text compared). non-trivial = evaluations on mutants")
 ASSUME = ["nesting deeper than 1024 and documents above ~70 KiB are outside the bound",
           "ill-formed XML never reaches a parser (the stream layer buffers it)",
-          "the connected-client injection part of the design (every mutant as a stream element) is not included in this check"]
+          "connected client: one client configuration (all bundled managers that need no external storage, no stream management, "
+          "TLS disabled); the client's own start-up requests are left unanswered so that injected responses can hit them"]
+RULE_CLIENT = (" CONNECTED CLIENT: the same seed + mutant closure is delivered, one element at a time with a quiescence barrier after each, to a "
+               "real QXmppClient (all 27 bundled managers that need no external storage) logged in over loopback TCP: every mutant as a "
+               "top-level stream element, and every mutant whose root is not a stanza additionally wrapped in <message/>, <iq type='set'/>, "
+               "<iq type='result'/> (ids of the client's own pending requests) and <presence/> from a contact (quick: wrapped forms for "
+               "structural mutants and for dropped / empty / 4 KiB attributes; thorough: all). Oracle: the forked ASan+UBSan child neither "
+               "crashes nor reports nor exceeds its alarm, and everything the client writes back is well-formed; a client that closes the "
+               "stream is re-established and the enumeration continues.")
+
+
+def corpus():
+    return os.path.join(C.VERIF, "corpus", "seeds.jsonl")
+
+
+def client_pass(tier):
+    def post(res, cov, findings):
+        bdir = C.build([HARNESS])
+        binary = os.path.join(bdir, HARNESS)
+        args = ["--tier", tier, "--opt", "engine=c02c", "--opt", "corpus=" + corpus()]
+        r2 = C.run_sharded(binary, args, nshards=None, timeout=None)
+        for shard, rc, err in r2["crashed"]:
+            raise C.InternalError("client pass: shard %d of %s exited with rc=%s: %s" % (shard, HARNESS, rc, err[-1500:]))
+        by_key = {}
+        for v in r2["violations"]:
+            by_key.setdefault(v["key"], v)
+        for key, v in sorted(by_key.items()):
+            ok = 0
+            for _ in range(2):
+                vio, rc, err = C.run_replay(binary, v["case"], args)
+                if any(x["key"] == key for x in vio):
+                    ok += 1
+            if ok != 2:
+                raise C.InternalError("violation %s did not reproduce deterministically (%d/2): %s" % (key, ok, v.get("msg", "")[:500]))
+            findings.append(dict(key=key, msg=v.get("msg", ""), replay=C.write_replay(PROP, HARNESS, key, v.get("msg", ""), v["case"])))
+        for w in ("client_sessions", "injections_answered"):
+            if r2["counters"].get(w, 0) <= 0:
+                raise C.InternalError("client pass: witness counter '%s' is zero" % w)
+        cov["client_injections"] = r2["evaluations"]
+        cov["client_counters"] = r2["counters"]
+        cov["client_violation_counts_by_key"] = r2["violation_keys"]
+        cov["evaluations"] += r2["evaluations"]
+        cov["distinct_nontrivial"] += r2["nontrivial"]
+        if r2["timed_out"]:
+            res["timed_out"] = True
+    return post
 
 
 def run(tier):
-    corpus = os.path.join(C.VERIF, "corpus", "seeds.jsonl")
-    return enum_check(PROP, HARNESS, tier, "exploration", RULE, ASSUME, args=["--opt", "engine=c02", "--opt", "corpus=" + corpus],
-                      witness=["seeds_processed", "deep_nesting_cases"])
+    return enum_check(PROP, HARNESS, tier, "exploration", RULE + RULE_CLIENT, ASSUME, args=["--opt", "engine=c02", "--opt", "corpus=" + corpus()],
+                      witness=["seeds_processed", "deep_nesting_cases"], post=client_pass(tier))
 
 
 def replay(path):
-    return enum_replay(PROP, HARNESS, path, args=["--opt", "engine=c02", "--opt", "corpus=" + os.path.join(C.VERIF, "corpus", "seeds.jsonl")])
+    return enum_replay(PROP, HARNESS, path, args=["--opt", "engine=c02", "--opt", "corpus=" + corpus()])
